@@ -1,5 +1,7 @@
 import Clikit.Lemmas.Section
 import Clikit.Lemmas.SectionIndent
+import Clikit.Lemmas.SectionGate
+import Clikit.Props.C10
 import Clikit.Gen.C15
 /-!
 # C15 - section outputs keep the screen equal to the stacked section contents
@@ -272,6 +274,81 @@ theorem indent_free_is_base (ansi : Bool) (w : Nat) (ops : List Op) : ∀ (secs 
     simp only [List.map_cons, runI, stepIO, run, h0, hstep]
     exact ⟨(ih _).1, by rw [(ih _).2]⟩
 
+/-! ## sections with the gate (quiet / verbosity / message-level flags)
+
+`Model/SectionGate.lean`: every section has its own quiet flag and verbosity (inherited at creation, set
+later); `write_line(text, flags)` asks C10's gate `Gen.mayWrite` BEFORE anything is recorded. -/
+
+/-- **A write the gate suppresses is no operation at all**: the sections (contents, row counters,
+indentation, settings) are what they were and nothing reaches the stream - on ANSI and plain outputs, for
+every flag word; in the words of the property statement of C10: when the section is quiet or its verbosity
+is below the lowest level the flags request. -/
+theorem suppressed_write_noop (ansi : Bool) (w : Nat) (g : GState) (i : Nat) (ls : List Str) (f : Option Nat)
+    (h : (cfgOf g.cfg i).quiet = true ∨ (cfgOf g.cfg i).verbosity < Gate.lowest f) :
+    stepG ansi w g (.write i ls f) = (g, []) := by
+  have hp : passes g.cfg i f = false := by
+    cases hm : passes g.cfg i f with
+    | false => rfl
+    | true =>
+      have := (Clikit.Props.C10.mayWrite_iff _ _ _).mp hm
+      rcases h with h | h
+      · rw [this.1] at h; cases h
+      · omega
+  simp only [stepG, hp, Bool.false_eq_true, if_false]
+
+/-- A write the gate lets through is the write of the indentation layer (flags play no further part). -/
+theorem allowed_write_is_write (ansi : Bool) (w : Nat) (g : GState) (i : Nat) (ls : List Str) (f : Option Nat)
+    (h : (cfgOf g.cfg i).quiet = false ∧ (cfgOf g.cfg i).verbosity ≥ Gate.lowest f) :
+    (stepG ansi w g (.write i ls f)).1.st = (stepIO ansi w g.st (.op (.write i ls))).1 ∧
+    (stepG ansi w g (.write i ls f)).2 = (stepIO ansi w g.st (.op (.write i ls))).2 := by
+  have hp : passes g.cfg i f = true := (Clikit.Props.C10.mayWrite_iff _ _ _).mpr h
+  refine ⟨?_, ?_⟩ <;> simp only [stepG, hp, if_true]
+
+/-- **A gated history is the history without the suppressed calls.**  For every calm history (no
+`overwrite` / `clear` on a section while it is quiet and still holds lines) the sections and the stream are
+those of the indented history `gflat` of it: suppressed writes and the calls on quiet sections left out. -/
+theorem gate_simulates (ansi : Bool) (w : Nat) (gops : List GOp)
+    (hc : calmG ansi w { st := { secs := [], ind := [] }, cfg := [] } gops = true) :
+    (runG ansi w { st := { secs := [], ind := [] }, cfg := [] } gops).1.st
+      = (runI ansi w { secs := [], ind := [] } (gflat [] gops)).1 ∧
+    (runG ansi w { st := { secs := [], ind := [] }, cfg := [] } gops).2
+      = (runI ansi w { secs := [], ind := [] } (gflat [] gops)).2 :=
+  runG_sim ansi w gops _ hc
+
+/-- **The screen shows the stacked contents under every verbosity.**  `screen_refines` for every calm
+history with flagged writes, per-section quiet and verbosity (changed at any time) and indentation: the
+screen is `above` followed by the contents of all sections in creation order - a suppressed write neither
+shows nor counts -, the cursor is below, the row counters are exact. -/
+theorem screen_refines_gated (w : Nat) (hw : 1 ≤ w) (gops : List GOp) (above : List Str)
+    (hc : calmG true w { st := { secs := [], ind := [] }, cfg := [] } gops = true) :
+    let r := runG true w { st := { secs := [], ind := [] }, cfg := [] } gops
+    let scr := execs w { rows := above, cur := above.length } r.2
+    scr.rows = above ++ stacked w r.1.st.secs ∧
+    scr.cur = scr.rows.length ∧
+    ∀ s ∈ r.1.st.secs, s.rows = (linesRows w s.content).length := by
+  have h := gate_simulates true w gops hc
+  simp only [h.1, h.2]
+  exact screen_refines_indented w hw (gflat [] gops) above
+
+/-- A history without flags on sections that are neither quiet nor verbose is the indented history. -/
+theorem gate_free_is_indented (ansi : Bool) (w : Nat) (ops : List Op) : ∀ (g : GState),
+    (∀ c ∈ g.cfg, c.quiet = false) →
+    (runG ansi w g (ops.map .op)).1.st = (runI ansi w g.st (ops.map .op)).1 ∧
+    (runG ansi w g (ops.map .op)).2 = (runI ansi w g.st (ops.map .op)).2 := by
+  induction ops with
+  | nil => intro g _; exact ⟨rfl, rfl⟩
+  | cons o r ih =>
+    intro g hq
+    have h0 : (cfgOf g.cfg (target o)).quiet = false := by
+      unfold cfgOf
+      rw [List.getD_eq_getElem?_getD]
+      cases hc : g.cfg[target o]? with
+      | none => rfl
+      | some c => exact hq c (List.mem_of_getElem? hc)
+    have h := ih { g with st := (stepIO ansi w g.st (.op o)).1 } hq
+    simp only [List.map_cons, runG, stepG, h0, Bool.false_eq_true, if_false, runI]
+    exact ⟨h.1, by rw [h.2]⟩
+
 /-! ## non-vacuity -/
 
 /-- Width 10: the older section has indentation 2 (inherited), the newer none; a write to the older
@@ -307,6 +384,53 @@ example :
     (execs 3 scr (old.2 ++ (writeSec 3 [old.1] a [A3]).2)).rows = [A1, A3, "   ".toList, " ".toList] ∧
     new.1 = { content := [[]], rows := 1 } ∧
     (execs 3 scr (new.2 ++ (writeSec 3 [new.1] a [A3]).2)).rows = [A1, A2, A3, []] := by decide
+
+/-! ### the gate layer -/
+
+private def g0 : GState := { st := { secs := [], ind := [] }, cfg := [] }
+
+/-- Width 10, two sections at NORMAL verbosity.  The newer one shows `b1` and is then given a VERBOSE line:
+nothing is recorded, nothing written.  The older section writes: the cursor goes up ONE row (the line that
+is shown).  After `set_verbosity(VERBOSE)` the same flagged call appends; a quiet section writes nothing. -/
+private def demoG : List GOp :=
+  [.create 0 false 0, .create 0 false 0, .write 1 ["b1".toList] none, .write 1 ["vv".toList] (some 1),
+   .write 0 ["a1".toList] none, .verbosity 1 1, .write 1 ["v2".toList] (some 1), .quiet 0 true,
+   .write 0 ["zz".toList] none, .write 1 ["dd".toList] (some 6)]
+
+example : (runG true 10 g0 demoG).2 =
+    [.print "b1".toList, .up 1, .eraseBelow, .print "a1".toList, .print "b1".toList, .print "v2".toList] := by
+  decide
+
+example : gflat [] demoG = [.create 0, .create 0, .op (.write 1 ["b1".toList]), .op (.write 0 ["a1".toList]),
+    .op (.write 1 ["v2".toList])] := by decide
+
+example : calmG true 10 g0 demoG = true := by decide
+example := gate_simulates true 10 demoG (by decide)
+example := screen_refines_gated 10 (by decide) demoG ["$ run".toList] (by decide)
+example := suppressed_write_noop true 10 (runG true 10 g0 (demoG.take 3)).1 1 ["vv".toList] (some 1)
+  (Or.inr (by decide))
+example := allowed_write_is_write true 10 (runG true 10 g0 (demoG.take 6)).1 1 ["v2".toList] (some 1)
+  (by decide)
+
+/-- the hypothesis `calmG` is not constantly true, and what it excludes: a section that shows a line is made
+quiet and cleared - its content is dropped (`quietSecs`), no byte is written, the line stays on the screen -/
+example :
+    let h : List GOp := [.create 0 false 0, .write 0 ["a1".toList] none, .quiet 0 true, .op (.clear 0)]
+    calmG true 10 g0 h = false ∧ (runG true 10 g0 h).2 = [.print "a1".toList] ∧
+    (runG true 10 g0 h).1.st.secs = [{ content := [], rows := 0 }] := by decide
+
+/-- what the order "ask the gate, THEN record" is for: had the suppressed line been recorded (content and row
+counter as after an ordinary write, nothing on the stream), the next write of the older section would move up
+two rows instead of one, erase the plain row above the sections and print the verbose-only line -/
+example :
+    let a : Sec := { content := [], rows := 0 }
+    let b : Sec := { content := ["b1".toList], rows := 1 }
+    let scr : Screen := { rows := ["$ run".toList, "b1".toList], cur := 2 }
+    let recorded := (writeSec 10 [] b ["vv".toList]).1
+    (execs 10 scr (writeSec 10 [recorded] a ["a1".toList]).2).rows
+      = ["a1".toList, "b1".toList, "vv".toList] ∧
+    (execs 10 scr (writeSec 10 [b] a ["a1".toList]).2).rows = ["$ run".toList, "a1".toList, "b1".toList] := by
+  decide
 
 private def a7 : Str := "aaaaaaa".toList
 private def b3 : Str := "bbb".toList
